@@ -188,6 +188,7 @@ type c06Obs struct {
 	Delivered bool       `json:"delivered"`
 	Why       string     `json:"why,omitempty"`
 	NowNs     int64      `json:"nowNs"`
+	TTLNs     int64      `json:"ttlNs"` // time.ParseDuration of the configured ttl (cross-check of the encoder's own parse)
 	Wire      string     `json:"wire,omitempty"` // hex of the request as sent (information only)
 	View      *c06View   `json:"view"`
 	Tabs      *c06Tables `json:"tabs"`
